@@ -73,7 +73,8 @@ class FTerm(Term):
         return isinstance(o, FTerm) and self.support == o.support and self.allowed == o.allowed
 
     def __hash__(self):
-        return hash((self.support, self.allowed))
+        # deliberately coarse (legal: equal terms still hash alike): generic code must never take equal hashes for equal terms
+        return hash(self.support)
 
     def __str__(self):
         return "P%s%s" % (list(self.support), sorted(self.allowed))
